@@ -150,9 +150,13 @@ spec fn bands_healthy(a: Archive, ids: Seq<BandId>) -> bool {
 impl Archive {
     // Band::get_info of band id: None = BANDTAIL absent or decodable (and the timestamps convert)
     uninterp spec fn sp_info_err(&self, id: BandId) -> Option<ErrTag>;
-    // the error the index-hunk completeness check yields for band id.  Only the helper of the proposed fix (below)
-    // speaks about it.
-    uninterp spec fn sp_hunks_err(&self, id: BandId) -> Option<ErrTag>;
+    // the error the index-hunk completeness check (validate_index_hunk_count) must yield for band id: the error of
+    // reading BANDTAIL if that fails, else InvalidMetadata if a hunk counted by the tail is missing or unreadable.
+    spec fn sp_hunks_err(&self, id: BandId) -> Option<ErrTag> {
+        if self.sp_info_err(id) is Some { self.sp_info_err(id) }
+        else if band_hunks_damaged(*self, id) { Some(ErrTag::InvalidMetadata) }
+        else { None }
+    }
     // the error BlockDir::validate reports for a present block that does not verify
     uninterp spec fn sp_block_err(&self, h: Seq<u8>) -> ErrTag;
 
@@ -228,23 +232,63 @@ impl Band {
     { unimplemented!() }
 }
 
-// NOT IN THE PINNED TREE.  Helper introduced by the proposed fix for DESIGN 9 #7 (see the report of this unit):
-//   async fn validate_index_hunk_count(band: &Band) -> Result<()>   in src/validate.rs
-// "BANDTAIL is readable and every index hunk numbered below its index_hunk_count is present and decodes, else Err".
-// On the pinned tree nothing calls it.  Its fn block cannot be part of this unit while the function does not exist in
-// /repo (the extractor has no optional blocks), so the contract is ASSUMED here.  It was PROVED once, against the
-// scratch copy carrying the fix, in a scratch unit (same preludes; shims: Band::get_info gives BANDTAIL's count,
-// IndexRead::read_hunk(n) is Ok(Some(_)) iff sp_hunk_ok(id, n), hunk numbers are u32): both match arms below except
-// the naming of the returned error as sp_hunks_err (the outcome function of this very check).
+// ---- validate_index_hunk_count (src/validate.rs; added by the fix for DESIGN 9 #7): its fn block is in validate.vu and
+// its contract is PROVED against the real body.  What follows are the ASSUMED contracts of what it calls. ----
+
+// jiff::Timestamp inside band::Info: opaque, no contract of this unit speaks about times.
 #[verifier::external_body]
-async fn validate_index_hunk_count(band: &Band) -> (r: Result<()>)
-    ensures
-        match r {
-            Ok(_) => band.sp_home().sp_info_err(band.band_id) is None && !band_hunks_damaged(band.sp_home(), band.band_id),
-            Err(e) => (band.sp_home().sp_info_err(band.band_id) is Some || band_hunks_damaged(band.sp_home(), band.band_id))
-                && band.sp_home().sp_hunks_err(band.band_id) == Some(tag_of(e)),
-        },
-{ unimplemented!() }
+struct Timestamp { _p: () }
+
+//@@ type src/band.rs | struct Info
+//@@ end
+
+// A hunk file is named by a u32 (src/index/mod.rs: `hunk_relpath(hunk_number: u32)`, `read_hunk(.., hunk_number: u32)`,
+// `hunks_available` parses `u32`): no hunk exists under a number outside u32.
+#[verifier::external_body]
+proof fn axiom_hunk_numbers_are_u32(a: Archive, id: BandId, n: int)
+    ensures a.sp_hunk_ok(id, n) ==> 0 <= n <= u32::MAX,
+{ }
+
+impl Band {
+    // Band::get_info (src/band.rs): read_json(BANDTAIL) -- Ok(None) when the tail is absent (unit `jsonio`:
+    // C10.read_json_none_iff_file_missing), Err when it is unreadable or undecodable -- plus timestamp conversion.
+    // ASSUMED: Ok carries BANDTAIL's index_hunk_count (None when there is no tail or the tail does not state one).
+    #[verifier::external_body]
+    async fn get_info(&self) -> (r: Result<Info>)
+        ensures
+            match r {
+                Ok(i) => self.sp_home().sp_info_err(self.band_id) is None
+                    && i.index_hunk_count == self.sp_home().sp_tail_count(self.band_id),
+                Err(e) => self.sp_home().sp_info_err(self.band_id) == Some(tag_of(e)),
+            },
+    { unimplemented!() }
+
+    // Band::index (src/band.rs): `IndexRead::open(self.transport.chdir(INDEX_DIR))` -- a reader of THIS band's index
+    #[verifier::external_body]
+    fn index(&self) -> (r: IndexRead)
+        ensures r.home() == self.sp_home(), r.sid() == self.band_id,
+    { unimplemented!() }
+}
+
+// R3: IndexRead (src/index/mod.rs), opaque: which band's index directory it reads.
+#[verifier::external_body]
+struct IndexRead { _p: () }
+
+impl IndexRead {
+    uninterp spec fn home(&self) -> Archive;
+    uninterp spec fn sid(&self) -> BandId;
+
+    // IndexRead::read_hunk: Ok(Some(entries)) iff hunk file `hunk_number` exists, decompresses and decodes;
+    // Ok(None) iff there is no such file; Err otherwise.  (Same contract as in unit `hunkiter`, hunkiter_types.rs,
+    // over this unit's outcome function sp_hunk_ok.)
+    #[verifier::external_body]
+    async fn read_hunk(&mut self, hunk_number: u32) -> (r: Result<Option<Vec<IndexEntry>>>)
+        ensures
+            final(self).home() == old(self).home(),
+            final(self).sid() == old(self).sid(),
+            (r matches Ok(Some(_))) <==> old(self).home().sp_hunk_ok(old(self).sid(), hunk_number as int),
+    { unimplemented!() }
+}
 
 // R7 (lifted verbatim from Band::validate):  entries.iter().any(|entry| entry.name == BAND_HEAD_FILENAME)
 #[verifier::external_body]
@@ -388,8 +432,8 @@ spec fn full_check_reported(a: Archive, h: Seq<u8>) -> bool {
     else { a.referenced()[h] > good[h] as u64 ==> reported(ErrTag::BlockTooShort(h, good[h], a.referenced()[h] as usize)) }
 }
 
-// ---- PROPOSED FIXES (not applied to /repo by this unit; `patch -p1` in /repo).  With them `./check --unit validate`
-// verifies (6 functions, vacuity clean) and the two witnesses of witness/src/w_validate.rs no longer reproduce. ----
+// ---- THE FIXES this unit proposed (since applied to /repo as `fix:` commits 92d9d5b and 03db8fb; kept for the record).
+// With them `./check --unit validate` verifies and the two witnesses of witness/src/w_validate.rs no longer reproduce. ----
 //   | --- a/src/validate.rs
 //   | +++ b/src/validate.rs
 //   | @@ -52,6 +52,9 @@
@@ -449,11 +493,4 @@ spec fn full_check_reported(a: Archive, h: Seq<u8>) -> bool {
 //   |                      .entry(addr.hash.clone())
 //   |                      .and_modify(|l| *l = max(*l, end))
 //
-// Contract PROVED for the new helper in a scratch unit against the fixed copy (shims: Band::get_info returns
-// BANDTAIL's index_hunk_count = sp_tail_count; IndexRead::read_hunk(n) is Ok(Some(_)) iff sp_hunk_ok(id, n); a hunk
-// number above u32::MAX cannot exist):
-//   | async fn validate_index_hunk_count(band: &Band) -> (r: Result<()>)
-//   |     ensures match r {
-//   |         Ok(_)  => band.sp_home().sp_info_err(band.band_id) is None && !band_hunks_damaged(band.sp_home(), band.band_id),
-//   |         Err(e) => band.sp_home().sp_info_err(band.band_id) is Some || band_hunks_damaged(band.sp_home(), band.band_id) }
-//   |   loop 1 invariant: forall|n: int| 0 <= n < hunk_number ==> band.sp_home().sp_hunk_ok(band.band_id, n)
+// The helper's contract is no longer assumed: see the fn block `validate_index_hunk_count` in units/validate.vu.
